@@ -227,6 +227,28 @@ def eval_grid(F, diagonal, res: Result, methods=METHODS, pairs=None, fev=None):
                     res.outcome(hash((F.tobytes(), diagonal, s, t, method, round(got, 9))))
             for kind, detail in viols:
                 res.violation(kind, case, detail)
+            # the same request through the n-best interface: every returned path is a valid path and the first one is
+            # optimal under the selected criterion
+            if method != 'minmax-energy' and s != t and (s[0] + 2 * s[1] + 3 * s[2] + 5 * t[0] + 7 * t[1] + 11 * t[2]) % 4 == 0:
+                from gemdat.path import optimal_n_paths
+
+                res.evals += 1
+                try:
+                    plist = optimal_n_paths(G, start=s, stop=t, method=method, n_paths=2, min_diff=0.0)
+                except nx.NetworkXNoPath:
+                    plist = []
+                except Exception as e:  # noqa: BLE001
+                    res.violation(f'optimal-n-paths-raise-{type(e).__name__}', case, str(e))
+                    continue
+                for pi, pth in enumerate(plist):
+                    pv, psites = validate_path(pth, E, shape, offs, s, t, '')
+                    for kind, detail in pv:
+                        res.violation('n-paths-' + kind, case, f'path {pi}: {detail}')
+                    if not pv and pi == 0:
+                        c = CRIT[method]
+                        got = pathref.path_cost(E, psites, c, THR)
+                        if got > own[s][c][t] + 1e-9 * max(1.0, abs(own[s][c][t])):
+                            res.violation('n-paths-first-path-not-cost-minimal', case, f'method={method} cost={got} optimum={own[s][c][t]} path={psites}')
 
 
 def eval_percolation(F, dirs, peaks, res: Result):
